@@ -66,7 +66,7 @@ const HOSTNAMES: [&str; 8] = [
 const ENTITIES: [&str; 3] = ["example.*", "sub.example.*", "b.example.*"];
 
 /// Location lists with two items (each chosen for one interaction of positive / negated / entity).
-const PAIRS: [&str; 14] = [
+const PAIRS: [&str; 16] = [
     "example.com,example.org",          // two unrelated positives
     "example.com,~sub.example.com",     // host minus one subdomain
     "sub.example.com,~example.com",     // positive below a negated parent: applies nowhere
@@ -77,6 +77,8 @@ const PAIRS: [&str; 14] = [
     "example.*,~sub.example.*",         // entity minus entity
     "a.b.example.com,b.example.*",      // hostname and entity, both positive
     "bücher.de,example.com",            // IDN next to ASCII
+    "bücher.de,münchen.de",             // two IDN locations (each is converted to punycode on its own)
+    "example.com,~bücher.de,münchen.de,straße.*", // three, of every kind
     "example.org,example.*",            // hostname and entity, both positive; most pages covered by the entity only
     "localhost,sub.example.*",          // the same with a sub-domain entity
     "example.*,~sub.example.com,~x.example.*", // entity minus a hostname and minus an entity
@@ -88,8 +90,10 @@ const PAIRS: [&str; 14] = [
 /// the page's public suffix nor a parent domain down to it, and cover no page under co.uk / github.io.
 const PUBLIC_SUFFIX_FORMS: [&str; 6] = ["com", "co.uk", "~co.uk", "uk", "io", "github.io"];
 
-const PAGE_HOSTS: [&str; 14] = [
+const PAGE_HOSTS: [&str; 16] = [
     "user.github.io",
+    "münchen.de",
+    "straße.co.uk",
     "example.com",
     "sub.example.com",
     "a.b.example.com",
